@@ -56,7 +56,10 @@ def valid_doc(r, f):
             else:
                 d.append(r.choice(["日本語", "x\U0001F600y", "é"]))
         if f in ("json", "json5"):
-            return json.dumps(d, ensure_ascii=r.random() < 0.5, indent=r.choice([None, None, 1])).encode("utf-8")
+            raw = r.random() < 0.5
+            if f == "json5" and any(c in formats.repr_text(d) for c in ("\u2028", "\u2029")):
+                raw = False      # (the pinned json5 parser rejects a raw U+2028 / U+2029 inside a string: the *valid* file must load)
+            return json.dumps(d, ensure_ascii=not raw, indent=r.choice([None, None, 1])).encode("utf-8")
         if f == "plist":
             return plistlib.dumps(d)          # the XML (text) form: binary plists are not a text format
         return formats.write(f, d)
